@@ -180,4 +180,28 @@ structure LibDecContract {τ : Type} (L : Lib τ) (b : Backend) (Dec : Bytes →
     ((L.call s [] room fl).ret = LibRet.ok ∨ ((L.call s [] room fl).ret = LibRet.bufError ∧ b ≠ Backend.bzip2)) ∧
     (L.call s [] room fl).out = [] ∧ (L.call s [] room fl).consumed = 0 ∧ R (L.call s [] room fl).st [] []
 
+/-- calling convention of `ZSTD_compressStream2` -/
+structure ZEncContract {τ : Type} (L : ZLib τ) (Dec : Bytes → Option Bytes) where
+  R : τ → Bytes → Bytes → Bool → Prop
+  pend : τ → Nat
+  init : R L.init [] [] false
+  mono : ∀ {s x y}, R s x y false → R s x y true
+  ok : ∀ {s x y fin} (inp : Bytes) (room : Nat) (fl : Flush), R s x y fin → Proto fin fl inp → 0 < room →
+    (L.call s inp room fl).isError = false ∧ (L.call s inp room fl).consumed ≤ inp.length ∧ (L.call s inp room fl).out.length ≤ room
+  /-- `ZSTD_e_end` answered with 0: the frame is complete -/
+  done : ∀ {s x y fin} (inp : Bytes) (room : Nat) (fl : Flush), R s x y fin → Proto fin fl inp → 0 < room →
+    fl = Flush.full → (L.call s inp room fl).hint = 0 →
+    (L.call s inp room fl).consumed = inp.length ∧ R (L.call s inp room fl).st [] [] false ∧
+    (x ++ inp ≠ [] → Dec (y ++ (L.call s inp room fl).out) = some (x ++ inp))
+  keep : ∀ {s x y fin} (inp : Bytes) (room : Nat) (fl : Flush), R s x y fin → Proto fin fl inp → 0 < room →
+    ¬ (fl = Flush.full ∧ (L.call s inp room fl).hint = 0) →
+    R (L.call s inp room fl).st (x ++ inp.take (L.call s inp room fl).consumed) (y ++ (L.call s inp room fl).out)
+      (fin || (decide (fl = Flush.full) && decide ((L.call s inp room fl).consumed = inp.length)))
+  progress : ∀ {s x y fin} (inp : Bytes) (room : Nat) (fl : Flush), R s x y fin → Proto fin fl inp → 0 < room →
+    (inp ≠ [] ∨ (fl = Flush.full ∧ x ≠ [])) → ¬ (fl = Flush.full ∧ (L.call s inp room fl).hint = 0) →
+    0 < (L.call s inp room fl).consumed ∨ pend (L.call s inp room fl).st < pend s
+  /-- a call with input, or with `ZSTD_e_end`, and room does something -/
+  bytes : ∀ {s x y fin} (inp : Bytes) (room : Nat) (fl : Flush), R s x y fin → Proto fin fl inp → 0 < room →
+    (inp ≠ [] ∨ fl = Flush.full) → 0 < (L.call s inp room fl).consumed + (L.call s inp room fl).out.length
+
 end Sqfs.Xfrm
